@@ -106,7 +106,6 @@ pub fn gen_inputs(rng: &mut Rng, k: usize) -> Vec<Input> {
                 allow_first_branch_nonzero: true,
                 allow_overflow_sum: true,
                 allow_non_ascii: false,
-                allow_fnda_before_fn: false,
             };
             let ns = rng.range(1, 3);
             let mut secs: Vec<Section> = vec![];
